@@ -682,3 +682,59 @@ Proof.
     rewrite lvl_node_odd in Sh by lia. discriminate.
   - destruct (C (down t me k) um ltac:(lia) G) as [H|H]; [left; exact H|right; exists um; split; [reflexivity|exact H]].
 Qed.
+
+(* ---- own update: after the proposals the member's whole direct path is blank ---- *)
+Lemma ParMono_none t t' p : ParMono t t' -> get t p = None -> forall um, get t' p <> Some (Par um).
+Proof. intros M G um G'. destruct (M p um G') as (u & Gu & _). congruence. Qed.
+
+Lemma blank_direct_path_blanks t l t' : small t -> 2 * l < tlen t -> blank_direct_path t l = TOk t' ->
+  forall p, ancestor p l -> get t' p = None.
+Proof.
+  intros Sm L. unfold blank_direct_path. destruct (path_nodes t l) as [path| |] eqn:P; cbn [lift tbind]; try discriminate.
+  intro E. assert (t' = blank_nodes t path) by congruence. subst t'. intros p A.
+  rewrite get_blank_nodes. destruct (existsb (N.eqb p) path) eqn:Ex; [reflexivity|].
+  destruct (get t p) as [n|] eqn:G; [|reflexivity]. exfalso.
+  assert (In p path) by (eapply path_nodes_complete; try eassumption; eapply get_some_lt; exact G).
+  assert (existsb (N.eqb p) path = true) by (apply existsb_exists; exists p; split; [assumption|apply N.eqb_refl]). congruence.
+Qed.
+
+Lemma blank_paths_blanks ls : forall t t' l, small t -> Forall (fun x => 2 * x < tlen t) ls -> In l ls ->
+  blank_paths t ls = TOk t' -> forall p um, ancestor p l -> get t' p <> Some (Par um).
+Proof.
+  induction ls as [|x rest IH]; intros t t' l Sm F I; [destruct I|]. cbn [blank_paths].
+  inversion F as [|? ? Hx Fr]; subst.
+  destruct (blank_direct_path t x) as [t1| |] eqn:D; cbn [tbind]; try discriminate. intros E p um A.
+  pose proof (blank_direct_path_length _ _ _ D) as L1.
+  destruct I as [->|I].
+  - eapply ParMono_none; [eapply ParMono_blank_paths; exact E|]. eapply blank_direct_path_blanks; eassumption.
+  - eapply (IH t1 t' l); try eassumption; [unfold small in *; lia|]. rewrite L1. exact Fr.
+Qed.
+
+Theorem own_update_blanks_the_path t removes updates adds t1 added me :
+  tlen t + 2 * N.of_nat (length adds) < 2 ^ 25 ->
+  batch_edit t removes updates adds = TOk (t1, added) -> In me (map fst updates) ->
+  forall k, (1 <= k)%nat -> forall um, get t1 (lvl_node (N.of_nat k) me) <> Some (Par um).
+Proof.
+  intros S. unfold batch_edit.
+  destruct (apply_removes t (rev removes)) as [ta| |] eqn:R1; cbn [tbind]; try discriminate.
+  destruct (apply_updates ta updates) as [tb| |] eqn:U; cbn [tbind]; try discriminate.
+  destruct (blank_paths tb (map fst updates)) as [tc| |] eqn:B; cbn [tbind]; try discriminate.
+  destruct (apply_adds tc adds 0 []) as [[td ad]| |] eqn:A; cbn [tbind]; try discriminate.
+  intros E I k Hk um. assert (t1 = trim td) by congruence. subst t1.
+  assert (Lb : tlen tb = tlen t) by (rewrite (apply_updates_length _ _ _ U), (apply_removes_length _ _ _ R1); reflexivity).
+  assert (Fr : Forall (fun x => 2 * x < tlen tb) (map fst updates)).
+  { clear - U. revert ta tb U. induction updates as [|[i id] rest IH]; intros ta tb; cbn [apply_updates map fst]; [constructor|].
+    destruct (get ta (2 * i)) as [[x|um]|] eqn:G; try discriminate. intro E. constructor.
+    - rewrite (apply_updates_length _ _ _ E), set_length. eapply get_some_lt. exact G.
+    - eapply IH. exact E. }
+  assert (A0 : ancestor (lvl_node (N.of_nat k) me) me).
+  { exists (N.of_nat (k - 1)), (me / 2 ^ N.of_nat k). unfold lvl_node. replace (N.of_nat (k - 1) + 1) with (N.of_nat k) by lia. split; reflexivity. }
+  intro G. pose proof (ParMono_trans _ _ _ (ParMono_apply_adds _ _ _ _ _ _ A) (ParMono_trim td)) as M.
+  destruct (M _ _ G) as (u & Gu & _).
+  exact (blank_paths_blanks (map fst updates) tb tc me ltac:(unfold small; lia) Fr I B _ u A0 Gu).
+Qed.
+
+Corollary complete_own_update t removes updates adds t1 added me pr :
+  tlen t + 2 * N.of_nat (length adds) < 2 ^ 25 ->
+  batch_edit t removes updates adds = TOk (t1, added) -> In me (map fst updates) -> Complete t1 me pr.
+Proof. intros S B I k um Hk G. exfalso. exact (own_update_blanks_the_path _ _ _ _ _ _ me S B I k Hk um G). Qed.
